@@ -657,6 +657,21 @@ class CallMixin:
                 return self.unop(X.NP_UNOPS[short], P[0], site, extra)
             if short in X.NP_CMPS and len(P) == 2:
                 return self.compare(X.NP_CMPS[short], P[0], P[1], site)
+        if q.startswith("operator.") and not nkw:
+            # the operator module's functions are the operators themselves
+            OPB = {"add": "Add", "sub": "Sub", "mul": "Mult", "truediv": "Div", "pow": "Pow", "mod": "Mod",
+                   "floordiv": "FloorDiv", "and_": "BitAnd", "or_": "BitOr", "xor": "BitXor", "matmul": "MatMult"}
+            OPC = {"lt": "Lt", "le": "LtE", "gt": "Gt", "ge": "GtE", "eq": "Eq", "ne": "NotEq", "is_": "Is",
+                   "is_not": "IsNot", "contains": None}
+            OPU = {"neg": "USub", "pos": "UAdd", "invert": "Invert", "inv": "Invert", "not_": "Not"}
+            name_ = q.split(".", 1)[1].strip("_") if q.split(".", 1)[1] not in ("and_", "or_", "is_", "not_") \
+                else q.split(".", 1)[1]
+            if name_ in OPB and len(P) == 2:
+                return self.binop(OPB[name_], P[0], P[1], site, extra)
+            if name_ in OPC and OPC[name_] and len(P) == 2:
+                return self.compare(OPC[name_], P[0], P[1], site)
+            if name_ in OPU and len(P) == 1:
+                return self.unop(OPU[name_], P[0], site, extra)
         if q == "numpy.nditer" and P:
             return self.make_nditer(P, kw, st, fr, site)
         # ---- dask pipeline
